@@ -148,9 +148,14 @@ class Threadless(ABC, Generic[T]):
         # be interested in the same fd.  Descriptors of interests
         # returned by work must be unique.
         #
-        # TODO: Ideally we must diff and unregister socks not
-        # returned of interest within current _select_events call
-        # but exists in the registered_socks_by_work_ids registry.
+        # Descriptors registered earlier but no longer of interest
+        # (e.g. an upstream connection the work has closed) must not
+        # stay registered: the OS may hand the same number out again,
+        # to this or to any other work.
+        registered = self.registered_events_by_work_ids.get(work_id, {})
+        for fileno in [fd for fd in registered if fd not in worker_events]:
+            self.selector.unregister(fileno)
+            del registered[fileno]
         for fileno in worker_events:
             if work_id not in self.registered_events_by_work_ids:
                 self.registered_events_by_work_ids[work_id] = {}
@@ -158,10 +163,22 @@ class Threadless(ABC, Generic[T]):
             if fileno in self.registered_events_by_work_ids[work_id]:
                 oldmask = self.registered_events_by_work_ids[work_id][fileno]
                 if mask != oldmask:
-                    self.selector.modify(
-                        fileno, events=mask,
-                        data=work_id,
-                    )
+                    try:
+                        self.selector.modify(
+                            fileno, events=mask,
+                            data=work_id,
+                        )
+                    except FileNotFoundError:
+                        # Work closed the registered descriptor and
+                        # opened a new one which got the same number.
+                        try:
+                            self.selector.unregister(fileno)
+                        except KeyError:
+                            pass    # already dropped by the failed modify
+                        self.selector.register(
+                            fileno, events=mask,
+                            data=work_id,
+                        )
                     self.registered_events_by_work_ids[work_id][fileno] = mask
                     logger.debug(
                         'fd#{0} modified for mask#{1} by work#{2}'.format(
